@@ -1,38 +1,101 @@
 """C15 - Base64, hex, percent-encoding and SHA-1 match their standards on all inputs (spec/Codecs.tla)."""
+import json
 import os
+import shutil
 import subprocess
 import vlib
 
 META = {
     "engine": "Codecs.tla,MC_Codecs.tla,Trace_Codecs.tla",
-    "technique": "TLC model-checks the codec laws on Codecs.tla over exhaustively enumerated small input spaces and emits "
-                 "every input with the value the standard prescribes; the cases are replayed on asl under ASan; recorded "
-                 "runs of asl on large random inputs are validated by TLC evaluating the same operators",
+    "technique": "TLC model-checks the codec laws on Codecs.tla (RFC 4648 Base64 in two formulations + a character machine, "
+                 "hex, percent-encoding, query strings, FIPS 180-4 SHA-1 on 16-bit limbs in two formulations) over "
+                 "exhaustively enumerated small input spaces and emits every input with the value the standard prescribes; "
+                 "the cases are replayed on asl under ASan+LSan; recorded runs of asl on large random and mutated inputs are "
+                 "validated by TLC evaluating the same operators",
     "design_ref": "DESIGN.md section 6, C15",
-    "level_text": "pending",
-    "level_note": "pending",
+    "level_text": "TLC enumerates (MC_Codecs.tla) every byte string over a boundary alphabet up to a bound, one pseudo-random "
+                  "array per length 0..300 (thorough 0..1024), one SHA-1 message per length 0..260 (thorough 0..400), every "
+                  "text up to length 6 (thorough 8) over {Base64 symbols, '=', white space, junk}, every hex / percent / query "
+                  "text over small alphabets, and every small dictionary; it checks the round-trip laws, the RFC 4648 text "
+                  "shape, white-space tolerance at every position, agreement of independent formulations and the published "
+                  "test vectors on the specification, and emits each input with the prescribed outputs. Each case is executed "
+                  "on encodeBase64/decodeBase64, encodeHex/decodeHex, Url::encode/decode/params/parseQuery and SHA1::hash; "
+                  "for malformed text only 0 <= length <= bound is required. Recorded runs on arrays up to 8 KiB (thorough "
+                  "256 KiB; SHA-1 up to 64 KiB) and on mutated texts are re-computed by TLC.",
+    "level_note": "Bounded: exhaustive only within spec/MC_Codecs_*.cfg; larger inputs are seeded random samples. The property "
+                  "samples lengths to 4 MiB (SHA-1 to 8 MiB); TLC recomputes at most 256 KiB (SHA-1 64 KiB, about 13 ms per "
+                  "block) - larger messages are not decided. Url::encode is not compared with one fixed text: the "
+                  "specification accepts any text that a strict percent-decoder maps back to the input and that leaves raw "
+                  "only characters the mode allows (RFC 2396 unreserved, plus reserved in URI mode). Memory safety and "
+                  "termination are observed (ASan/LSan, time limit), not decided by the model. The undocumented "
+                  "decodeBase64(ptr, n) overload is exercised with n = strlen and with a longer buffer.",
 }
+
+HSRC = ["c15_record.cpp"]
 
 
 def run(ctx):
     lib = vlib.build_lib("asan")
     rep = vlib.build_harness(lib, "c15_replay", ["c15_replay.cpp"])
+    rec = vlib.build_harness(lib, "c15_record", HSRC)
     cfg = "MC_Codecs_quick" if ctx.quick else "MC_Codecs_thorough"
     cases = os.path.join(ctx.tmp, "c15.cases")
-    ctx.model("MC_Codecs", cfg, emit_to=cases, timeout=ctx.pick(600, 3000), xmx="8g", xss="1g")
+    ctx.model("MC_Codecs", cfg, emit_to=cases, timeout=ctx.pick(600, 3000), xmx="10g", xss="1g")
     ctx.exhaustive = True
+    ctx.rule = ("one case per state of MC_Codecs (an input of one codec with the prescribed outputs); non-trivial = non-empty "
+                "input (texts: >= 2 characters); distinct = distinct case lines (hash)")
     ctx.replay(rep, cases, label="R/Codecs", timeout=ctx.pick(600, 3000))
     os.unlink(cases)
     # V: asl's codecs on large / random / mutated inputs, every result recomputed by TLC from Codecs.tla
-    rec = vlib.build_harness(lib, "c15_record", ["c15_record.cpp"])
-    files = ctx.record(rec, ctx.pick(8, 32), ctx.pick(60, 150), "V/Codecs", extra_args=["--mode", str(ctx.pick(8, 256))])
-    ctx.validate_traces("Trace_Codecs", "Trace_Codecs", files, label="V/Codecs", timeout=ctx.pick(600, 3000), xss="1g", xmx="6g")
+    maxkib = ctx.pick(8, 256)
+    files = ctx.record(rec, ctx.pick(8, 32), ctx.pick(60, 150), "V/Codecs", extra_args=["--mode", str(maxkib)])
+    ctx.validate_traces("Trace_Codecs", "Trace_Codecs", files, label="V/Codecs", timeout=ctx.pick(600, 3000), xss="1g", xmx="8g",
+                        parallel=ctx.pick(8, 6))
+    ctx.extra["largest_array_bytes_recomputed_by_tlc"] = maxkib * 1024
+    ctx.extra["largest_sha1_message_bytes_recomputed_by_tlc"] = min(maxkib, 64) * 1024
+    ctx.assumptions += [
+        "exhaustive within the constants of spec/%s.cfg; beyond them only the recorded random executions apply" % cfg,
+        "SHA-1 of messages above 64 KiB and arrays above %d KiB are not recomputed by TLC" % maxkib,
+        "memory errors, leaks and non-termination are observed by ASan/LSan and a 20 s limit per case, not decided by the model",
+        "strings are NUL-free (asl::String is a C string); LC_ALL=C (Url::encode uses isalnum)",
+        "binding demonstrated on mutated copies of the library (Base64 one-byte tail padding, white-space skipping, SHA-1 "
+        "full-block loop bound, '%' left raw, '+' handled after decoding, uppercase hex) and on a corrupted trace field: all rejected",
+    ]
+
+
+def _replay_trace(path, lib):
+    tmp = os.path.join(vlib.BUILD, "tmp", "replay-c15-%d" % os.getpid())
+    os.makedirs(tmp, exist_ok=True)
+    try:
+        trace = path
+        if not path.endswith(".ndjson"):
+            info = json.load(open(path))
+            exe = vlib.build_harness(lib, "c15_record", HSRC)
+            trace = os.path.join(tmp, "t.ndjson")
+            cmd = [exe, "--seed", str(info["seed"]), "--events", str(info["events"]), "--out", trace] + list(info.get("args", []))
+            if info.get("avoid"):
+                cmd += ["--avoid", ",".join(info["avoid"])]
+            p = subprocess.run(["timeout", "900"] + cmd, env=vlib.run_env())
+            if p.returncode != 0:
+                print("recorder failed again with exit %d (seed %s): violation reproduced" % (p.returncode, info["seed"]))
+                return 1
+        r = vlib.tlc("Trace_Codecs", "Trace_Codecs", workers=1, timeout=1800, env={"TRACE": trace}, xss="1g", xmx="8g")
+        if r.rc == 0:
+            print("trace accepted by Trace_Codecs")
+            return 0
+        if r.violated() is None:
+            print(r.tail(40))
+            return 2
+        print("trace rejected by Trace_Codecs near event %d" % r.depth)
+        return 1
+    finally:
+        shutil.rmtree(tmp, ignore_errors=True)
 
 
 def replay(path):
     lib = vlib.build_lib("asan")
     if os.path.basename(path).startswith("rec-") or path.endswith(".ndjson"):
-        return vlib.replay_recorded(path, lib, "c15_record", ["c15_record.cpp"], "Trace_Codecs", "Trace_Codecs")
+        return _replay_trace(path, lib)
     rep = vlib.build_harness(lib, "c15_replay", ["c15_replay.cpp"])
     r = subprocess.run([rep, "--single", path], env=vlib.run_env())
     return 1 if r.returncode == 1 else (0 if r.returncode == 0 else 2)
